@@ -85,6 +85,8 @@ def replay_tree(ct, entry, fs, release=False):
             wmap = {i: 1 for i in ids} if lens is None else {i: lens[j % len(lens)] for j, i in enumerate(ids)}
             expr = lua_of(ct, lambda i: wmap[i], pad)
             src = f"local x = {expr}" + (".k" if prefix else "") + "\n"
+            if prefix and lens is not None and lens[0] == 40:
+                src = f"local x = {expr}:dot(other)\n"
             try:
                 ein, _ = luaexpr.parse_local_expr(src)
             except luaexpr.LuaSyntaxError:
@@ -162,7 +164,7 @@ def _work(job):
                     if z3.is_true(m.eval(z3.And(g, z3.Not(O.good(tin, t, prefix))), model_completion=True)):
                         bad = t
                         break
-                out["sat"].append({"shape": root.show(), "entry": f"{entry}/{ctx}", "fs": fs,
+                out["sat"].append({"shape": root.show(), "entry": f"{entry}/{ctx}" + ("@Prefix" if prefix and "Prefix" not in ctx else ""), "fs": fs,
                                    "in": concrete_tree(tin, m, R), "out": concrete_tree(bad, m, R) if bad else None})
     return out
 
@@ -179,6 +181,10 @@ def discover_prefix_entries(R):
         for c in r.calls.values():
             if c["ctx"] and c["ctx"][0] == "const":
                 ents.add((c["fn"], c["ctx"][1], True))
+            elif c["ctx"] is None and c["fn"] in ("format_expression", "hang_expression"):
+                # the wrappers without a context argument format under ExpressionContext::Standard: for a prefix this drops the
+                # "a prefix always keeps its parentheses" rule, so the entry is checked as a prefix entry all the same
+                ents.add((c["fn"], "Standard", True))
     return sorted(ents)
 
 
@@ -245,7 +251,7 @@ def run(ses, rep, plan=None):
         by.setdefault((s_["fs"], s_["entry"]), []).append(s_)
     for fs in entries:
         for e, c, _ in entries[fs]:
-            key = (fs, f"{e}/{c}")
+            key = (fs, f"{e}/{c}" + ("@Prefix" if _ and "Prefix" not in c else ""))
             if key not in by:
                 rep.add(f"{fs}/{e}/{c}/all-shapes", "unsat", "no shape/operator/layout assignment violates the oracle")
     # replay
